@@ -16,6 +16,9 @@ TRIPLES = [
     ["size = 100", "name = 'a*'", "other_read = false"],
     ["size ne 100", "ext eq 'txt'", "is_file"],
     ["length(name) > 3", "name notlike 'b%'", "uid !== 1"],
+    ["name === 'a*'", "name !== '?yz'", "name = 'a*'"],
+    ["name eeq 'a*c'", "ext ene 't?t'", "name like 'a*'"],
+    ["name =~ '^a.c$'", "name !=~ 'a.c'", "name notlike 'a_c'"],
 ]
 
 
@@ -35,6 +38,8 @@ def fixed_tree(root):
                               "kind": "file", "size": size, "owner": (uid, uid * 3),
                               "mode": [0o644, 0o755, 0o600, 0o640][i % 4]})
     nodes = [{"path": "d0", "kind": "dir"}, {"path": "d1", "kind": "dir"}, {"path": "d2", "kind": "dir"}] + nodes
+    for lit in ("a*", "?yz", "a*c", "t?t.t?t", "a.c", "a_c", "A*"):
+        nodes.append({"path": "d1/" + lit, "kind": "file", "size": 101, "owner": (0, 0), "mode": 0o644})
     nodes.append({"path": "abc", "kind": "file", "size": 100, "owner": (0, 0), "mode": 0o644})
     nodes.append({"path": "d0/abc", "kind": "file", "size": 101, "owner": (1, 5), "mode": 0o644})
     tree.materialise(root, nodes)
